@@ -843,7 +843,7 @@ def combinator_model(facts, inner=None, depth=0, field_model=None, callees=None)
     return model
 
 
-def table(facts, f, fields=None, args=None, calls=None, callees=None, start=0):
+def table(facts, f, fields=None, args=None, calls=None, callees=None, start=0, stop_blocks=()):
     """Rows of a decision table computed on the MIR of `f` (seeded propagation; helper methods evaluated in place when
     callees(path) says so; closures of Option/Result combinators evaluated).
       fields: {(owner, field): [values …]}    every read of that field has the row's value
@@ -869,7 +869,8 @@ def table(facts, f, fields=None, args=None, calls=None, callees=None, start=0):
         for (kind, k), v in row.items():
             if kind == "arg" and v is not None:
                 Sccp._write(env, (k, ()), v)
-        sx = Sccp(f, call_model=combinator_model(facts, inner, field_model=fm, callees=callees), field_model=fm).run([(start, env)])
+        sx = Sccp(f, call_model=combinator_model(facts, inner, field_model=fm, callees=callees), field_model=fm,
+                  stop_blocks=stop_blocks).run([(start, env)])
         yield row, sx
 
 
